@@ -227,6 +227,55 @@ theorem pppoe_addTyped_inv (p p' : PPPoE) (code : Nat) (v : String) (h : p.Inv) 
       exact PPPoE.addTag_inv p _ h ⟨rfl, hc, by simp only; omega⟩
   · cases ha
 
+theorem pppoe_code_lt :
+    PPPoE.END_OF_LIST < 65536 ∧ PPPoE.SERVICE_NAME < 65536 ∧ PPPoE.AC_NAME < 65536 ∧ PPPoE.HOST_UNIQ < 65536 ∧
+    PPPoE.AC_COOKIE < 65536 ∧ PPPoE.VENDOR_SPECIFIC < 65536 ∧ PPPoE.RELAY_SESSION_ID < 65536 ∧
+    PPPoE.SERVICE_NAME_ERROR < 65536 ∧ PPPoE.AC_SYSTEM_ERROR < 65536 ∧ PPPoE.GENERIC_ERROR < 65536 := by decide
+
+theorem pppoe_apply_inv (p p' : PPPoE) (op : List String) (h : p.Inv) (ha : p.apply op = .ok p') : p'.Inv := by
+  rcases pppoe_code_lt with ⟨c0, c1, c2, c3, c4, c5, c6, c7, c8, c9⟩
+  unfold PPPoE.apply at ha
+  split at ha
+  · split at ha
+    · injection ha with ha; subst ha; exact ⟨Nat.mod_lt _ (by decide), h.type, h.code, h.sessionId, h.payloadLength, h.size, h.tags⟩
+    · cases ha
+  · split at ha
+    · injection ha with ha; subst ha; exact ⟨h.version, Nat.mod_lt _ (by decide), h.code, h.sessionId, h.payloadLength, h.size, h.tags⟩
+    · cases ha
+  · split at ha
+    · injection ha with ha; subst ha; exact ⟨h.version, h.type, Nat.mod_lt _ (by decide), h.sessionId, h.payloadLength, h.size, h.tags⟩
+    · cases ha
+  · split at ha
+    · injection ha with ha; subst ha; exact ⟨h.version, h.type, h.code, Nat.mod_lt _ (by decide), h.payloadLength, h.size, h.tags⟩
+    · cases ha
+  · split at ha
+    · injection ha with ha; subst ha; exact ⟨h.version, h.type, h.code, h.sessionId, Nat.mod_lt _ (by decide), h.size, h.tags⟩
+    · cases ha
+  · split at ha
+    · exact pppoe_addTyped_inv p p' _ _ h (Nat.mod_lt _ (by decide)) ha
+    · cases ha
+  · injection ha with ha; subst ha; exact PPPoE.addTag_inv p _ h ⟨rfl, c0, by simp⟩
+  · exact pppoe_addTyped_inv p p' _ _ h c1 ha
+  · exact pppoe_addTyped_inv p p' _ _ h c2 ha
+  · exact pppoe_addTyped_inv p p' _ _ h c3 ha
+  · exact pppoe_addTyped_inv p p' _ _ h c4 ha
+  · exact pppoe_addTyped_inv p p' _ _ h c6 ha
+  · exact pppoe_addTyped_inv p p' _ _ h c7 ha
+  · exact pppoe_addTyped_inv p p' _ _ h c8 ha
+  · exact pppoe_addTyped_inv p p' _ _ h c9 ha
+  · split at ha
+    · rename_i i d _ _
+      split at ha
+      · cases ha
+      · rename_i hle
+        injection ha with ha; subst ha
+        refine PPPoE.addTag_inv p _ h ⟨?_, c5, ?_⟩
+        · simp only [PPPoE.encodeVendor, List.length_append, OutCursor.beBytes_length]
+          exact Nat.mod_eq_of_lt (by omega)
+        · simp only [PPPoE.encodeVendor, List.length_append, OutCursor.beBytes_length]; omega
+    · cases ha
+  · cases ha
+
 example : PPPoE.parse [0x11, 0x09, 0, 0, 0, 8, 1, 1, 0, 0, 1, 3, 0, 0] =
     .ok (⟨1, 1, 9, 0, 8, [⟨257, 0, []⟩, ⟨769, 0, []⟩], 8⟩, .none) := rfl
 example : PPPoE.RELAY_SESSION_ID = 0x1001 ∧ PPPoE.SERVICE_NAME = 0x0101 := ⟨rfl, rfl⟩
